@@ -2,6 +2,8 @@ package kernel
 
 import (
 	"fmt"
+	"github.com/MixinNetwork/mixin/config"
+	"github.com/dgraph-io/ristretto/v2"
 	"math/big"
 	"sync"
 	"testing"
@@ -344,5 +346,193 @@ func TestVerif_C31(t *testing.T) {
 	if batchesSeen < 2 {
 		r.Inconclusive(fmt.Sprintf("only %d bundles captured", batchesSeen))
 	}
+	vC31Exchange(t, r)
 	r.Finish()
+}
+
+// vC31Exchange: the snapshot exchange of a proposal. The proposer has announced a batch, some peers answered that
+// they miss all of its transactions, and the last commitment arrives: the proposer builds one transaction challenge
+// per peer. Each of them must be buildable (at most the 255 transactions a message carries, within the transport
+// maximum), whatever the other peers asked for.
+func vC31Exchange(t *testing.T, r *verifkit.Run) {
+	rng := r.Fork("c31-exchange", 0)
+	type shape struct{ count, extra, wanting int }
+	shapes := []shape{{100, 64, 3}, {100, 64, 4}, {5, 3900 * 1024, 2}}
+	for k := 0; k < r.N(3, 30); k++ {
+		shapes = append(shapes, shape{1 + rng.Intn(127), 16 + rng.Intn(2000), 1 + rng.Intn(4)})
+	}
+	for _, sh := range shapes {
+		batch := vC31Batch(sh.count, sh.extra)
+		size := 0
+		for _, tx := range batch {
+			size += len(tx.Marshal())
+		}
+		if size >= p2p.TransportMessageMaxSize*2/3 {
+			continue // the batcher would not form it
+		}
+		chain, action := vC31Proposer(t, batch, sh.wanting)
+		var herr error
+		panicked, pv, stack := verifkit.Guard(func() { herr = chain.cosiHandleCommitment(action) })
+		r.Eval()
+		r.Count("snapshot_exchanges_through_the_commitment_handler", 1)
+		w := map[string]any{"transactions": sh.count, "signed_bytes": size, "peers_missing_the_batch": sh.wanting}
+		if panicked {
+			msg := fmt.Sprint(pv)
+			if len(msg) > 120 {
+				msg = msg[:120] + "..."
+			}
+			r.Violation("C31|exchange|transaction-challenge-not-buildable|"+verifkit.PanicSite(stack),
+				fmt.Sprintf("building the transaction challenges for %d peers that miss an admissible batch of %d transactions (%d bytes) failed: %s", sh.wanting, sh.count, size, msg), w)
+			continue
+		}
+		if herr != nil {
+			r.Count("snapshot_exchanges_refused_by_the_handler", 1)
+			continue
+		}
+		if agg := chain.CosiAggregators[action.SnapshotHash]; agg == nil || agg.Snapshot.Signature == nil {
+			r.Count("snapshot_exchanges_without_completed_commitment_round", 1)
+			continue
+		}
+		r.Nontrivial(fmt.Sprintf("exchange|%d|%d|%d", sh.count, sh.extra, sh.wanting))
+	}
+}
+
+// vC31Proposer (after the demonstration of seeded change C31-g9) builds a seven node network in memory and returns the chain
+// of node 0 in the state it has right before the last commitment of a CoSi
+// round arrives: the announced snapshot carries the given batch, `wanting`
+// peers have answered the announcement with a commitment that asks for every
+// transaction of the batch, and the returned action is the commitment of the
+// last of them. Handling it makes the proposer build one transaction
+// challenge message per peer.
+func vC31Proposer(t *testing.T, batch []*common.VersionedTransaction, wanting int) (*Chain, *CosiAction) {
+	t.Helper()
+	const total = 7
+
+	epoch := mainnetConsensusNodeRemovalSignerSetForkAt - 100*OneDay
+	networkID, err := crypto.HashFromString(config.KernelNetworkId)
+	if err != nil {
+		t.Fatal(err)
+	}
+	accepted := make([]*CNode, total)
+	privates := make([]crypto.Key, total)
+	genesis := make(map[crypto.Hash]bool)
+	for i := range accepted {
+		seed := crypto.Blake3Hash(fmt.Appendf(nil, "c31 exchange signer %d", i))
+		privates[i] = crypto.NewKeyFromSeed(append(seed[:], seed[:]...))
+		id := crypto.Blake3Hash(fmt.Appendf(nil, "c31 exchange node %d", i))
+		accepted[i] = &CNode{
+			IdForNetwork: id,
+			Signer:       common.Address{PublicSpendKey: privates[i].Public()},
+			Timestamp:    epoch + uint64(i),
+			State:        common.NodeStateAccepted,
+		}
+		genesis[id] = true
+	}
+	node := &Node{
+		IdForNetwork:            accepted[0].IdForNetwork,
+		Epoch:                   epoch,
+		networkId:               networkID,
+		allNodesSortedWithState: accepted,
+		genesisNodesMap:         genesis,
+	}
+	node.Signer = common.Address{PrivateSpendKey: privates[0], PublicSpendKey: privates[0].Public()}
+	node.nodeStateSequences = node.buildNodeStateSequences(accepted, false)
+	node.acceptedNodeStateSequences = node.buildNodeStateSequences(accepted, true)
+	cache, err := ristretto.NewCache(&ristretto.Config[[]byte, any]{NumCounters: 1e3, MaxCost: 1 << 20, BufferItems: 64})
+	if err != nil {
+		t.Fatal(err)
+	}
+	t.Cleanup(cache.Close)
+	node.cacheStore = cache
+	node.Peer = p2p.NewPeer(node, node.IdForNetwork, "127.0.0.1:0", false)
+
+	chain := &Chain{
+		node:            node,
+		ChainId:         node.IdForNetwork,
+		CosiAggregators: make(map[crypto.Hash]*CosiAggregator),
+		CosiVerifiers:   make(map[crypto.Hash]*CosiVerifier),
+	}
+
+	timestamp := epoch + OneDay + uint64(time.Hour)
+	threshold := node.ConsensusThreshold(timestamp, false)
+	if threshold != total*2/3+1 || wanting >= threshold {
+		t.Fatalf("unexpected threshold %d", threshold)
+	}
+
+	found := make(map[crypto.Hash]*common.VersionedTransaction)
+	snapshot := &common.Snapshot{
+		Version:     common.SnapshotVersionCommonEncoding,
+		NodeId:      node.IdForNetwork,
+		RoundNumber: 1,
+		Timestamp:   timestamp,
+	}
+	var hashes []crypto.Hash
+	for _, tx := range batch {
+		found[tx.PayloadHash()] = tx
+		hashes = append(hashes, tx.PayloadHash())
+		snapshot.AddTransaction(tx.PayloadHash())
+	}
+	snapshot.Hash = snapshot.PayloadHash()
+
+	var self *CNode
+	var peers []*CNode
+	for _, cn := range chain.consensusNodes(snapshot.RoundNumber, timestamp) {
+		if cn.IdForNetwork == node.IdForNetwork {
+			self = cn
+		} else {
+			peers = append(peers, cn)
+		}
+	}
+	if self == nil || len(peers) != total-1 {
+		t.Fatalf("unexpected consensus nodes %v %d", self, len(peers))
+	}
+
+	nonce := crypto.CosiCommitNonce(crypto.RandReader())
+	own := nonce.Public()
+	agg := &CosiAggregator{
+		Snapshot:       snapshot,
+		WantTxs:        make(map[crypto.Hash][]crypto.Hash),
+		FullChallenges: make(map[crypto.Hash]bool),
+		Commitments:    map[int]*crypto.Key{self.ConsensusIndex: &own},
+		Responses:      make(map[int]*[32]byte),
+	}
+	chain.CosiAggregators[snapshot.Hash] = agg
+	chain.CosiVerifiers[snapshot.Hash] = &CosiVerifier{Snapshot: snapshot, Announcement: &own, nonce: nonce}
+
+	// threshold-2 peers have committed already, the last `wanting-1` of them
+	// miss the whole batch; the others have every transaction.
+	for i, cn := range peers[:threshold-2] {
+		commitment := crypto.CosiCommitNonce(crypto.RandReader()).Public()
+		agg.Commitments[cn.ConsensusIndex] = &commitment
+		agg.FullChallenges[cn.IdForNetwork] = false
+		if i >= threshold-2-(wanting-1) {
+			agg.WantTxs[cn.IdForNetwork] = hashes
+		} else {
+			agg.WantTxs[cn.IdForNetwork] = nil
+		}
+	}
+
+	last := peers[threshold-2]
+	commitment := crypto.CosiCommitNonce(crypto.RandReader()).Public()
+	action := &CosiAction{
+		Action:       CosiActionSelfCommitment,
+		PeerId:       last.IdForNetwork,
+		SnapshotHash: snapshot.Hash,
+		Commitment:   &commitment,
+		WantTxs:      hashes,
+		data:         &CosiChainData{PN: last, CN: self, FoundTxs: found},
+	}
+	return chain, action
+}
+
+func vC31Batch(count, extra int) []*common.VersionedTransaction {
+	batch := make([]*common.VersionedTransaction, count)
+	for i := range batch {
+		tx := common.NewTransactionV5(common.XINAssetId)
+		tx.AddInput(crypto.Blake3Hash(fmt.Appendf(nil, "c31 exchange input %d", i)), 0)
+		tx.Extra = make([]byte, extra)
+		copy(tx.Extra, fmt.Appendf(nil, "c31 exchange transaction %d", i))
+		batch[i] = tx.AsVersioned()
+	}
+	return batch
 }
